@@ -346,6 +346,9 @@ ExecNode(cx, st0, n, line) ==
          [st0 EXCEPT !.ws = Append(@, Writer0), !.k = Append(@, SeqF(n.body, "xexpand", line, line, <<>>))]
     \* lqx_fail: Context.Errorf
     [] n.t = "xfail" -> Fail(cx, st0, line, "ext")
+    \* lqx_sub: a tag whose own work fails somewhere else (it renders another template and wraps that render's error,
+    \* which carries a location of its own): the failure is located at this tag
+    [] n.t = "xsub" -> Fail(cx, st0, line, "ext")
     \* lqx_file NAME: Context.RenderFile(dir of Context.SourceFile / NAME, {p: 7}) - the file is rendered with the
     \* current bindings plus p; what it assigns stays with it
     [] n.t = "xfile" ->
